@@ -151,9 +151,10 @@ def hist_stream(cases, outs):
 # ---------------------------------------------------------------------------------------------
 # e2e_amp  (C11)
 # case: [seed, drop_pm, dup_pm, jitter_ms, delay_ms, chain_extra, n_raw, raw_kinds_mask, raw_per_sender,
-#        fault_until_ms, bytes, corrupt_pm]
+#        fault_until_ms, bytes, corrupt_pm, rebind_at_ms after the client connected (0 = none; then only the first datagram from the
+#        new address gets through), server_close_ms after the server accepted, pause_ms]
 # ---------------------------------------------------------------------------------------------
-AMP_LEN = 12
+AMP_LEN = 15
 
 
 def gen_amp(rng):
@@ -169,20 +170,32 @@ def gen_amp(rng):
     mask = rng.choice([15, 15, 1, 2, 4, 8, 6])
     per = rng.choice([3, 10, 25])
     fault_until = rng.choice([500, 2000, 6000])
-    return [seed, drop, dup, jitter, delay, chain, n_raw, mask, per, fault_until, rng.choice([0, 1000, 20000]), corrupt]
+    rebind = close = pause = 0
+    nbytes = rng.choice([0, 1000, 20000])
+    if rng.random() < 0.35:
+        # the client moves to a new port mid-transfer, one datagram from there arrives, then silence;
+        # the server application closes some time later
+        rebind = rng.choice([20, 50, 200, 600])
+        close = rebind + rng.choice([30, 300, 1500, 4000])
+        pause = rng.choice([20, 50])
+        nbytes = 40000
+        drop = min(drop, 100)
+    return [seed, drop, dup, jitter, delay, chain, n_raw, mask, per, fault_until, nbytes, corrupt, rebind, close, pause]
 
 
 def fixed_amp(tier):
     return [
-        [1, 0, 0, 0, 20, 0, 2, 15, 6, 0, 1000, 0],
-        [2, 300, 300, 0, 20, 4, 0, 0, 0, 4000, 1000, 0],
-        [3, 500, 0, 20, 50, 6, 2, 15, 20, 6000, 0, 100],
-        [4, 0, 600, 0, 5, 6, 4, 2, 25, 2000, 1000, 0],
+        [1, 0, 0, 0, 20, 0, 2, 15, 6, 0, 1000, 0, 0, 0, 0],
+        [2, 300, 300, 0, 20, 4, 0, 0, 0, 4000, 1000, 0, 0, 0, 0],
+        [3, 500, 0, 20, 50, 6, 2, 15, 20, 6000, 0, 100, 0, 0, 0],
+        [4, 0, 600, 0, 5, 6, 4, 2, 25, 2000, 1000, 0, 0, 0, 0],
+        [5, 0, 0, 0, 20, 0, 0, 0, 0, 0, 40000, 0, 300, 1300, 30],   # rebinding, silence, server closes
+        [6, 0, 0, 0, 5, 2, 1, 15, 5, 0, 40000, 0, 100, 4100, 20],
     ]
 
 
 def valid_amp(c):
-    return len(c) == AMP_LEN and all(v >= 0 for v in c) and c[1] <= 500 and c[5] <= 6 and c[6] <= 4 and c[8] <= 25
+    return len(c) == AMP_LEN and all(v >= 0 for v in c) and c[1] <= 500 and c[5] <= 6 and c[6] <= 4 and c[8] <= 25 and c[12] <= 5000 and c[13] <= 20000 and c[14] <= 100
 
 
 def nontrivial_amp(case, out):
@@ -191,12 +204,12 @@ def nontrivial_amp(case, out):
         return False
     n = out[8]
     srv, cli = out[1], out[2]
-    rows = [out[9 + 7 * i:16 + 7 * i] for i in range(n)]
+    rows = [out[10 + 7 * i:17 + 7 * i] for i in range(n)]
     return any(r[1] == 0 and r[2] == srv for r in rows)
 
 
 def hist_amp(cases, outs):
-    h = {"validated": 0, "never_validated": 0, "vn_replies": 0, "other_replies": 0, "capped": 0, "server_pre_validation_datagrams": 0}
+    h = {"rebinding": sum(1 for c in cases if len(c) > 12 and c[12] > 0), "validated": 0, "never_validated": 0, "vn_replies": 0, "other_replies": 0, "capped": 0, "server_pre_validation_datagrams": 0}
     for c, o in zip(cases, outs):
         if o.startswith("!"):
             continue
@@ -206,7 +219,7 @@ def hist_amp(cases, outs):
         srv, cli = v[1], v[2]
         valid = False
         for i in range(v[8]):
-            r = v[9 + 7 * i:16 + 7 * i]
+            r = v[10 + 7 * i:17 + 7 * i]
             if r[1] == 2:
                 valid = True
             if r[1] == 0 and r[2] == srv:
@@ -238,6 +251,15 @@ def gen_inject(rng):
     n_uni = rng.choice([0, 1, 2])
     total = rng.choice([20000, 100000, 200000])
     total = min(total, 1200000 // (2 * n_bidi + n_uni))
+    if rng.random() < 0.3:
+        # a long upload: thousands of 1-RTT packets, so that replays of datagrams more than 128 and
+        # more than 1000 packet numbers old happen (the replay kind picks old datagrams half the time)
+        n_bidi, n_uni = 1, 0
+        total = rng.choice([2500000, 4000000])
+        mask = rng.choice([16, 16, 63])
+        pm = rng.choice([50, 200])
+        length = 60000
+        delay = rng.choice([2, 10])
     return [seed, pm, mask, start, length, n_bidi, total, delay, rng.choice([0, 0, 20, 80]), rng.choice([0, 0, 10, 40]),
             n_uni, rng.choice([100, 1000, 20000]), rng.choice([0, 500, 10000])]
 
@@ -247,11 +269,13 @@ def fixed_inject(tier):
         [1, 300, 63, 200, 3000, 2, 100000, 20, 0, 0, 1, 1000, 0],
         [2, 1000, 16, 50, 10000, 1, 200000, 10, 0, 0, 0, 1000, 0],      # replays only
         [3, 1000, 2, 50, 10000, 1, 200000, 10, 50, 20, 0, 1000, 500],   # bit flips only, lossy
+        [4, 100, 16, 50, 60000, 1, 4000000, 5, 0, 0, 0, 20000, 0],      # long upload, old replays
+        [5, 100, 16, 30, 60000, 1, 3000000, 2, 20, 5, 0, 20000, 0],
     ]
 
 
 def valid_inject(c):
-    return len(c) == INJ_LEN and all(v >= 0 for v in c) and 1 <= c[5] <= 4 and c[10] <= 2 and c[8] <= 80 and c[6] <= 200000 and c[4] <= 10000
+    return len(c) == INJ_LEN and all(v >= 0 for v in c) and 1 <= c[5] <= 4 and c[10] <= 2 and c[8] <= 80 and c[6] <= 4000000 and c[4] <= 60000
 
 
 def nontrivial_inject(case, out):
@@ -494,13 +518,16 @@ def nontrivial_cc(case, out):
 
 
 def _cc_check(v, slack_us):
-    """python mirror of the e2e_cc monitor with a slack on the time threshold; True = accepted"""
+    """python mirror of the e2e_cc monitor (cc_scan and, for cubic, once_scan) with a slack on the
+    time threshold; True = accepted"""
     cc = v[3]
     rows = [v[6 + 8 * i:14 + 8 * i] for i in range(v[5])]
     thr = lambda s, l: max(9 * max(s, l) // 8, 1000)
     for ep in (0, 1):
         unres, largest = {}, {}
         cwnd, srtt, latest, mtu, bif, after_cong, disc_t, pending = 12000, 333000, 333000, 1200, 0, False, -1, []
+        # once_scan state
+        o_sent, o_cwnd, o_mtu, o_rec, o_lost, o_ack_t = {}, 12000, 1200, -1, False, -1
         for r in rows:
             if r[1] != ep:
                 continue
@@ -516,6 +543,7 @@ def _cc_check(v, slack_us):
                         return False
                     after_cong = False
                 unres[(sp, pn)] = (b, el, t)
+                o_sent[(sp, pn)] = (t, el)
                 if el == 1:
                     bif += b
             elif k == 1:
@@ -524,9 +552,14 @@ def _cc_check(v, slack_us):
                     if unres[key][1] == 1:
                         bif -= unres[key][0]
                     del unres[key]
+                for key in [q for q in o_sent if q[0] == sp and lo <= q[1] <= hi]:
+                    o_ack_t = max(o_ack_t, o_sent[key][0])
+                    del o_sent[key]
                 largest[sp] = max(largest.get(sp, -1), hi)
             elif k == 2:
                 sp, pn, probe = r[2], r[3], r[5]
+                if probe != 1 and (sp, pn) in o_sent and o_sent[(sp, pn)][1] == 1:
+                    o_lost = True
                 if (sp, pn) not in unres:
                     return False
                 b, el, t0 = unres.pop((sp, pn))
@@ -544,6 +577,14 @@ def _cc_check(v, slack_us):
                 if any(a < thr(r[5], r[6]) - slack_us for a in pending):
                     return False
                 cwnd, srtt, latest, pending = r[3], r[5], r[6], []
+                if cc == 0:
+                    is_md = abs(100 * r[3] - 70 * o_cwnd) <= o_cwnd
+                    if o_lost and o_rec >= 0 and is_md and not r[3] <= 2 * o_mtu:
+                        return False
+                    rec1 = t if (o_lost and o_rec < 0 and is_md) else o_rec
+                    rec2 = -1 if (rec1 >= 0 and rec1 < o_ack_t) else rec1
+                    rec3 = -1 if (o_lost and r[3] <= 2 * o_mtu) else rec2
+                    o_cwnd, o_rec, o_lost, o_ack_t = r[3], rec3, False, -1
             elif k == 4:
                 for key in [q for q in unres if q[0] == r[2]]:
                     if unres[key][1] == 1:
@@ -554,6 +595,7 @@ def _cc_check(v, slack_us):
                 after_cong = True
             elif k == 6:
                 mtu = r[3]
+                o_mtu = r[3]
     return True
 
 
